@@ -309,3 +309,226 @@ Lemma resolve_deep reg t : RegWF reg -> no_ext t = true -> clean reg (resolve_ty
 Proof. intros Hwf. now apply resolve_deep_both. Qed.
 Lemma resolve_arg_deep reg a : RegWF reg -> no_ext_arg a = true -> clean_arg reg (resolve_arg reg a) = true.
 Proof. intros Hwf. now apply resolve_deep_both. Qed.
+
+(* ------------------------------------------------------------------ exported model *)
+Lemma resolve_model_both reg : RegWF reg ->
+  (forall t, to_model (resolve_ty reg t) = to_model t) /\
+  (forall a, arg_to_model (resolve_arg reg a) = arg_to_model a).
+Proof.
+  intros Hwf. apply ty_both_ind; intros; try reflexivity.
+  - cbn [resolve_ty to_model]. rewrite omap_map.
+    erewrite omap_ext; [reflexivity|]. eapply Forall_impl; [|exact H].
+    intros row Hrow. cbn beta. rewrite omap_map. erewrite omap_ext; [reflexivity|]. exact Hrow.
+  - cbn [resolve_ty to_model]. rewrite !omap_map.
+    erewrite (omap_ext _ _ i), (omap_ext _ _ o); [reflexivity|exact H0|exact H].
+  - cbn [resolve_ty to_model].
+    assert (Ha : omap arg_to_model (map (resolve_arg reg) args) = omap arg_to_model args).
+    { rewrite omap_map. now apply omap_ext. }
+    destruct (lookup_type reg e id) as [d|] eqn:E; cbn [to_model]; rewrite Ha; [|reflexivity].
+    apply lookup_type_defines in E. destruct (defines_ty_names _ _ _ _ Hwf E) as [-> ->]. reflexivity.
+  - cbn. assumption.
+  - cbn [resolve_arg arg_to_model]. rewrite omap_map. erewrite omap_ext; [reflexivity|exact H].
+Qed.
+Lemma resolve_model reg t : RegWF reg -> to_model (resolve_ty reg t) = to_model t.
+Proof. intros Hwf. now apply resolve_model_both. Qed.
+Lemma resolve_arg_model reg a : RegWF reg -> arg_to_model (resolve_arg reg a) = arg_to_model a.
+Proof. intros Hwf. now apply resolve_model_both. Qed.
+
+(* ------------------------------------------------------------------ type bounds *)
+(* top-level forms of the local loops of [tbound] *)
+Fixpoint row_b (l : list ty) : option (list bound) :=
+  match l with
+  | [] => Some []
+  | x :: r => match tbound x, row_b r with Some b, Some bs => Some (b :: bs) | _, _ => None end
+  end.
+Fixpoint rows_b (l : list (list ty)) : option (list bound) :=
+  match l with
+  | [] => Some []
+  | x :: r => match row_b x, rows_b r with Some b, Some bs => Some (b ++ bs) | _, _ => None end
+  end.
+Lemma tbound_sum rs : tbound (TSum rs) = match rows_b rs with Some bs => Some (join bs) | None => None end.
+Proof. reflexivity. Qed.
+
+(* what a type argument contributes to a from-params bound *)
+Definition arg_bound (a : tyarg) : option (option bound) :=
+  match a with
+  | AType t => match tbound t with Some b => Some (Some b) | None => None end
+  | _ => Some None
+  end.
+Lemma at_idx_nth args i :
+  at_idx args i = match nth_error args i with None => None | Some a => arg_bound a end.
+Proof. unfold at_idx. destruct (nth_error args i) as [[]|]; reflexivity. Qed.
+Lemma at_idx_local args i :
+  (fix at_idx (l : list tyarg) (i : nat) {struct l} : option (option bound) :=
+     match l, i with
+     | [], _ => None
+     | AType t' :: _, O => match tbound t' with Some b => Some (Some b) | None => None end
+     | _ :: _, O => Some None
+     | _ :: r, S k => at_idx r k
+     end) args i = at_idx args i.
+Proof.
+  revert i. induction args as [|a args IH]; intros [|i]; try reflexivity.
+  rewrite at_idx_nth. cbn [nth_error]. rewrite <- at_idx_nth. destruct a; apply IH.
+Qed.
+Lemma tbound_ext_generic d args :
+  tbound (TExt d args Generic) =
+  match td_bound d with Explicit b => Some b | FromParams idx => from_params args idx [] end.
+Proof.
+  cbn [tbound]. destruct (td_bound d) as [b|idx]; [reflexivity|].
+  generalize (@nil bound). induction idx as [|i idx IH]; intros acc; [reflexivity|].
+  cbn [from_params]. rewrite <- at_idx_local.
+  match goal with |- context [match ?x with _ => _ end] => destruct x as [[b|]|] end; auto.
+Qed.
+
+Lemma row_b_map (f : ty -> ty) l : Forall (fun x => tbound (f x) = tbound x) l -> row_b (map f l) = row_b l.
+Proof. induction 1 as [|x l Hx _ IH]; cbn; [reflexivity|]. now rewrite Hx, IH. Qed.
+Lemma from_params_ext args args' idx acc :
+  (forall i, at_idx args' i = at_idx args i) -> from_params args' idx acc = from_params args idx acc.
+Proof.
+  intros H. revert acc. induction idx as [|i idx IH]; intros acc; cbn; [reflexivity|].
+  rewrite H. destruct (at_idx args i) as [[b|]|]; auto.
+Qed.
+Lemma at_idx_map (f : tyarg -> tyarg) args i :
+  Forall (fun a => arg_bound (f a) = arg_bound a) args -> at_idx (map f args) i = at_idx args i.
+Proof.
+  intros H. rewrite !at_idx_nth, nth_error_map. destruct (nth_error args i) as [a|] eqn:E; [|reflexivity].
+  cbn. rewrite Forall_forall in H. apply H. eapply nth_error_In; eauto.
+Qed.
+
+Lemma resolve_bound_both reg :
+  (forall t, consistent reg t = true -> tbound (resolve_ty reg t) = tbound t) /\
+  (forall a, consistent_arg reg a = true -> arg_bound (resolve_arg reg a) = arg_bound a).
+Proof.
+  unfold consistent, consistent_arg. apply ty_both_ind; intros; try reflexivity.
+  - rewrite everywhere_sum in H0. apply andb_true_iff in H0 as [_ H0]. cbn [resolve_ty]. rewrite !tbound_sum.
+    assert (E : rows_b (map (map (resolve_ty reg)) rows) = rows_b rows); [|now rewrite E].
+    revert H0. induction H as [|row rows Hrow _ IH]; cbn [forallb map rows_b]; intros H0; [reflexivity|].
+    apply andb_true_iff in H0 as [H1 H2]. rewrite (IH H2), row_b_map; [reflexivity|].
+    eapply Forall_forallb_imp; eauto.
+  - rewrite everywhere_opaque in H0. apply andb_true_iff in H0 as [Hh Ha]. cbn [consistent_here] in Hh.
+    cbn [resolve_ty]. destruct (lookup_type reg e id) as [d|] eqn:E; [|reflexivity].
+    apply lookup_type_defines, In_defs_ty in E. rewrite forallb_forall in Hh. specialize (Hh d E).
+    unfold def_bound in Hh. rewrite tbound_ext_generic in *.
+    assert (Hat : forall i, at_idx (map (resolve_arg reg) args) i = at_idx args i).
+    { intros i. apply at_idx_map. eapply Forall_forallb_imp; eauto. }
+    destruct (td_bound d) as [b'|idx].
+    + cbn in Hh. cbn [tbound]. destruct b, b'; cbn in Hh; congruence.
+    + rewrite (from_params_ext _ _ _ _ Hat). cbn [tbound].
+      destruct (from_params args idx []) as [b'|]; cbn in Hh; [|discriminate].
+      destruct b, b'; cbn in Hh; congruence.
+  - cbn in *. now rewrite H.
+Qed.
+Lemma resolve_bound reg t : consistent reg t = true -> tbound (resolve_ty reg t) = tbound t.
+Proof. apply resolve_bound_both. Qed.
+
+(* ------------------------------------------------------------------ serial form *)
+Lemma omap_ext_guarded {A B} (c : A -> bool) (f g : A -> option B) l :
+  Forall (fun x => c x = true -> f x = g x) l -> forallb c l = true -> omap f l = omap g l.
+Proof. intros H Hc. apply omap_ext. eapply Forall_forallb_imp; eauto. Qed.
+
+Lemma resolve_ser_both reg : RegWF reg ->
+  (forall t, consistent reg t = true -> ser_ty (resolve_ty reg t) = ser_ty t) /\
+  (forall a, consistent_arg reg a = true -> ser_arg (resolve_arg reg a) = ser_arg a).
+Proof.
+  intros Hwf. apply ty_both_ind; intros; try reflexivity.
+  - unfold consistent in H0. rewrite everywhere_sum in H0. apply andb_true_iff in H0 as [_ H0].
+    cbn [resolve_ty ser_ty]. rewrite omap_map.
+    erewrite (omap_ext_guarded (forallb (consistent reg))); [reflexivity| |exact H0].
+    eapply Forall_impl; [|exact H]. intros row Hrow Hc. cbn beta. rewrite omap_map.
+    eapply omap_ext_guarded; eauto.
+  - unfold consistent in H1. rewrite everywhere_func in H1. apply andb_true_iff in H1 as [_ H1].
+    apply andb_true_iff in H1 as [Hi Ho]. cbn [resolve_ty ser_ty]. rewrite !omap_map.
+    rewrite (omap_ext_guarded _ _ _ _ H Hi), (omap_ext_guarded _ _ _ _ H0 Ho). reflexivity.
+  - unfold consistent in H1. rewrite everywhere_poly in H1. apply andb_true_iff in H1 as [_ H1].
+    apply andb_true_iff in H1 as [Hi Ho]. cbn [resolve_ty ser_ty]. rewrite !omap_map.
+    rewrite (omap_ext_guarded _ _ _ _ H Hi), (omap_ext_guarded _ _ _ _ H0 Ho). reflexivity.
+  - pose proof (proj1 (resolve_bound_both reg) _ H0) as Hb.
+    unfold consistent in H0. rewrite everywhere_opaque in H0. apply andb_true_iff in H0 as [_ Ha].
+    assert (Hargs : omap ser_arg (map (resolve_arg reg) args) = omap ser_arg args).
+    { rewrite omap_map. eapply omap_ext_guarded; eauto. }
+    cbn [resolve_ty] in *. destruct (lookup_type reg e id) as [d|] eqn:E.
+    + cbn [ser_ty]. rewrite Hb, Hargs. cbn [tbound].
+      apply lookup_type_defines in E. destruct (defines_ty_names _ _ _ _ Hwf E) as [-> ->]. reflexivity.
+    + cbn [ser_ty]. now rewrite Hargs.
+  - cbn in *. now rewrite H.
+  - unfold consistent_arg in H0. rewrite everywhere_seq in H0. cbn [resolve_arg ser_arg]. rewrite omap_map.
+    erewrite omap_ext_guarded; eauto.
+Qed.
+Lemma resolve_ser reg t : RegWF reg -> consistent reg t = true -> ser_ty (resolve_ty reg t) = ser_ty t.
+Proof. intros Hwf. now apply resolve_ser_both. Qed.
+Lemma resolve_arg_ser reg a : RegWF reg -> consistent_arg reg a = true -> ser_arg (resolve_arg reg a) = ser_arg a.
+Proof. intros Hwf. now apply resolve_ser_both. Qed.
+
+(* ------------------------------------------------------------------ operations *)
+Lemma resolve_ft_ser reg f : RegWF reg -> consistent_ft reg f = true -> ser_ft (resolve_ft reg f) = ser_ft f.
+Proof.
+  intros Hwf H. unfold consistent_ft in H. apply andb_true_iff in H as [Hi Ho].
+  unfold ser_ft, resolve_ft. cbn. rewrite !omap_map.
+  rewrite (omap_ext_guarded (consistent reg) _ ser_ty (ft_in f)), (omap_ext_guarded (consistent reg) _ ser_ty (ft_out f));
+    auto; apply Forall_forall; intros; now apply resolve_ser.
+Qed.
+
+Lemma resolve_op_ser reg o s : RegWF reg -> consistent_op reg o = true -> ser_op o = Some s ->
+  exists s', ser_op (resolve_op reg o) = Some s' /\ same_but_descr reg s s'.
+Proof.
+  intros Hwf Hc Hs. destruct o as [c|x|k]; cbn [resolve_op].
+  - unfold resolve_custom. destruct (lookup_op reg (c_ext c) (c_name c)) as [d|] eqn:E.
+    + cbn [consistent_op] in Hc. apply andb_true_iff in Hc as [Hf Ha].
+      cbn [ser_op] in *. unfold ser_custom in *. cbn [to_custom_op c_sig c_args x_sig x_args x_def c_ext c_name c_descr].
+      rewrite (resolve_ft_ser _ _ Hwf Hf), omap_map.
+      rewrite (omap_ext_guarded (consistent_arg reg) _ ser_arg (c_args c));
+        [|apply Forall_forall; intros; now apply resolve_arg_ser|exact Ha].
+      destruct (ser_ft (c_sig c)) as [sf|]; [|discriminate].
+      destruct (omap ser_arg (c_args c)) as [sa|]; [|discriminate].
+      injection Hs as <-. eexists. split; [reflexivity|]. cbn.
+      apply lookup_op_defines in E. destruct (defines_op_names _ _ _ _ Hwf E) as (-> & -> & _).
+      repeat split. right. exists d. now split.
+    + exists s. split; [exact Hs|]. cbn [ser_op] in Hs. destruct (ser_custom c) as [sc|]; [|discriminate].
+      injection Hs as <-. cbn. repeat split. now left.
+  - exists s. split; [exact Hs|]. cbn [ser_op] in Hs. destruct (ser_custom (to_custom_op x)); [|discriminate].
+    injection Hs as <-. cbn. repeat split. now left.
+  - exists s. split; [exact Hs|]. cbn in Hs. injection Hs as <-. reflexivity.
+Qed.
+
+Lemma resolve_hugr_ser reg h s : RegWF reg -> forallb (consistent_op reg) h = true -> ser_hugr h = Some s ->
+  exists s', ser_hugr (resolve_hugr reg h) = Some s' /\ Forall2 (same_but_descr reg) s s'.
+Proof.
+  intros Hwf. unfold ser_hugr, resolve_hugr. revert s.
+  induction h as [|o h IH]; cbn; intros s Hc Hs.
+  - injection Hs as <-. exists []. split; [reflexivity|constructor].
+  - apply andb_true_iff in Hc as [Hc1 Hc2].
+    destruct (ser_op o) as [so|] eqn:Eo; [|discriminate].
+    destruct (omap ser_op h) as [sh|] eqn:Eh; [|discriminate]. injection Hs as <-.
+    destruct (resolve_op_ser _ _ _ Hwf Hc1 Eo) as [so' [Eso' Hrel]].
+    destruct (IH _ Hc2 eq_refl) as [sh' [Esh' Hrel']].
+    rewrite Eso', Esh'. eexists. split; [reflexivity|]. now constructor.
+Qed.
+
+Lemma resolve_ft_model reg f : RegWF reg -> ft_to_model (resolve_ft reg f) = ft_to_model f.
+Proof. intros Hwf. unfold ft_to_model, resolve_ft. cbn [ft_in ft_out ft_reqs]. exact (resolve_model reg (TFunc _ _ _) Hwf). Qed.
+Lemma resolve_op_export reg o : RegWF reg -> export_op (resolve_op reg o) = export_op o.
+Proof.
+  intros Hwf. destruct o as [c|x|k]; cbn [resolve_op]; try reflexivity.
+  unfold resolve_custom. destruct (lookup_op reg (c_ext c) (c_name c)) as [d|] eqn:E; [|reflexivity].
+  cbn [export_op x_args x_sig x_def]. rewrite (resolve_ft_model _ _ Hwf), omap_map.
+  rewrite (omap_ext (fun x => arg_to_model (resolve_arg reg x)) arg_to_model);
+    [|apply Forall_forall; intros; now apply resolve_arg_model].
+  apply lookup_op_defines in E. destruct (defines_op_names _ _ _ _ Hwf E) as (Hn & He & Hne).
+  unfold qualified_name. rewrite Hn, He. apply N.eqb_neq in Hne. now rewrite Hne.
+Qed.
+
+(* signatures and port types: same number of ports, same bounds, same serial form *)
+Lemma resolve_op_signature reg o f : outer_signature o = Some f ->
+  exists f', outer_signature (resolve_op reg o) = Some f' /\
+             (f' = f \/ f' = resolve_ft reg f).
+Proof.
+  destruct o as [c|x|k]; cbn; intros H; try discriminate; injection H as <-.
+  - unfold resolve_custom. destruct (lookup_op reg (c_ext c) (c_name c)); cbn; eauto.
+  - eauto.
+Qed.
+Lemma resolve_row_bounds reg l : forallb (consistent reg) l = true ->
+  row_bounds (map (resolve_ty reg) l) = row_bounds l /\ length (map (resolve_ty reg) l) = length l.
+Proof.
+  intros H. split; [|apply map_length]. unfold row_bounds. rewrite map_map. apply Forall_map_eq.
+  rewrite forallb_Forall in H. eapply Forall_impl; [|exact H]. intros t Ht. now apply resolve_bound.
+Qed.
